@@ -143,3 +143,15 @@ Theorem C19_sb_meaning : forall c init hist o,
   o_stat_iters o = N.of_nat (length (o_samples o)) * o_final_size o).
 Proof. exact c19_sb_meaning. Qed.
 Print Assumptions C19_sb_meaning.
+
+(** End to end ([c19_e2e_sb]: the real runner, the benchmark on the virtual
+    clock, rounds and sizes read from the event log): it holds of what the model
+    reports, for every history. *)
+Theorem C19_e2e_model : forall c init hist out t s,
+  c_test c = false ->
+  bench_loop c init hist = Ok out -> out_done out = true ->
+  seen_of_outcome t out = Ok s ->
+  N.of_nat (length (st_samples (s_store (out_state out)))) < 2 ^ 32 ->
+  c19_e2e_sb c init (firstn (rounds_of (out_state out)) hist) (o_sizes s) (o_stat_samples s) (o_stat_iters s) = true.
+Proof. exact c19_e2e_model. Qed.
+Print Assumptions C19_e2e_model.
